@@ -1,4 +1,5 @@
 pub mod dom;
 pub mod field;
+pub mod interp;
 pub mod lexer;
 pub mod walk;
